@@ -102,6 +102,7 @@ func newEngines(dist bool, data []SeriesData, st *Store) (queryMaker, func()) {
 	half := len(data) / 2
 	s1, s2 := NewStore(data[:half]), NewStore(data[half:])
 	s1.Faults, s2.Faults = st.Faults, st.Faults
+	s1.InjectedAlso, s2.InjectedAlso = st.InjectedAlso, st.InjectedAlso
 	s1.Cancel, s2.Cancel = st.Cancel, st.Cancel
 	// one remote engine's storage fails a select at once while the other's is slow
 	s1.FailSelectName, s2.SlowSelectName, s2.SlowSelectDelay = st.FailSelectName, st.SlowSelectName, st.SlowSelectDelay
@@ -256,10 +257,31 @@ func oracleFault(seed int64, id int, mode string) CaseResult {
 	ctx, cancel := context.WithCancel(context.Background())
 	defer cancel()
 	st.Cancel = cancel
+	// storage failures through the remote engines of a distributed engine (every third case), and
+	// failures of a storage whose own backend request was cancelled or timed out (every fourth): the
+	// query's context is alive, the failure is the storage's
+	distErr := mode == "storerr" && !slow && id%3 == 1
+	if mode == "storerr" {
+		switch id % 4 {
+		case 2:
+			st.InjectedAlso = context.Canceled
+		case 0:
+			if id%8 == 0 {
+				st.InjectedAlso = context.DeadlineExceeded
+			}
+		}
+	}
+	if distErr {
+		fc.N = 1 + r.Int63n(3)
+		res.Tags = []string{fmt.Sprintf("fault=%s@%s#%d in the remote engines' storages", fc.Kind, fc.Site, fc.N)}
+	}
+	if st.InjectedAlso != nil {
+		res.Tags[0] += " wrapping " + st.InjectedAlso.Error()
+	}
 	if fc.Kind != "none" {
 		st.Faults = []Fault{{Kind: fc.Kind, Site: fc.Site, N: fc.N}}
 	}
-	eng, _ := newEngines(racing && fc.Dist, data, st)
+	eng, _ := newEngines((racing && fc.Dist) || distErr, data, st)
 	remoteStores := lastRemoteStores
 	base := goroutineCount()
 
@@ -299,6 +321,11 @@ func oracleFault(seed int64, id int, mode string) CaseResult {
 	}
 	q.Close()
 	fired := st.Fired() > 0
+	for _, rs := range remoteStores {
+		if rs.Fired() > 0 {
+			fired = true
+		}
+	}
 	res.Impl = trunc(out.String(), 300)
 
 	switch mode {
@@ -313,7 +340,7 @@ func oracleFault(seed int64, id int, mode string) CaseResult {
 			} else if !errors.Is(out.RawErr, ErrInjected) {
 				res.Fail = "storage failure (" + res.Tags[0] + ") but the query's error does not wrap it: " + out.ErrMsg
 			}
-		} else if d := diffSelf(out, clean); d != "" {
+		} else if d := diffSelf(out, clean); d != "" && !distErr {
 			res.Fail = "fault not reached but the result differs from the clean run: " + d
 		}
 	case "lifecycle":
@@ -413,6 +440,45 @@ func oracleExtreme(seed int64, id int) CaseResult {
 			remotes := []api.RemoteEngine{engine.NewLocalEngine(opts, NewStore(data[:half])), engine.NewLocalEngine(opts, NewStore(data[half:]))}
 			dist := engine.NewDistributedEngine(opts, api.NewStaticEndpoints(remotes))
 			runQuery(dist, NewStore(data), EngineCfg{}, qs, w)
+		}()
+	}
+	if res.Fail == "" {
+		// the query's own methods in every order an embedding server can call them: Cancel and Close
+		// before Exec, Close without Exec, twice, Cancel after the end - on the host's goroutine, where
+		// a panic is the host's
+		func() {
+			step := ""
+			defer func() {
+				if e := recover(); e != nil {
+					res.Fail = fmt.Sprintf("panic escaped from the query's methods (%s): %v", step, e)
+				}
+			}()
+			engs := []queryMaker{newImpl(EngineCfg{})}
+			if id%3 == 0 && len(data) > 1 {
+				half := len(data) / 2
+				opts := engine.Opts{EngineOpts: promOpts(EngineCfg{}), LogicalOptimizers: logicalplan.DefaultOptimizers}
+				remotes := []api.RemoteEngine{engine.NewLocalEngine(opts, NewStore(data[:half])), engine.NewLocalEngine(opts, NewStore(data[half:]))}
+				engs = append(engs, engine.NewDistributedEngine(opts, api.NewStaticEndpoints(remotes)))
+			}
+			for _, eng := range engs {
+				for _, order := range [][]string{{"close"}, {"cancel", "exec", "close"}, {"cancel", "close"}, {"close", "close"}, {"exec", "cancel", "close", "cancel"}, {"cancel", "cancel", "exec", "close", "close"}} {
+					q, err := makeQuery(eng, NewStore(data), EngineCfg{}, qs, w)
+					if err != nil {
+						break
+					}
+					for _, m := range order {
+						step = strings.Join(order, ",") + " at " + m
+						switch m {
+						case "close":
+							q.Close()
+						case "cancel":
+							q.Cancel()
+						case "exec":
+							q.Exec(context.Background())
+						}
+					}
+				}
+			}
 		}()
 	}
 	return res
@@ -596,11 +662,29 @@ func oracleConc(seed int64, id int) CaseResult {
 			jobs[i].w = Window{Start: 1_200_000, End: 1_200_000}
 		}
 	}
+	if id%6 == 2 {
+		// one text under several windows: what a query with @ means depends on its own window
+		// (start(), end(), the distance of a fixed time from the start)
+		atPool := []string{"foo @ start()", "sum(foo @ end())", "foo @ 950", "rate(foo[1m] @ end())", "foo - foo @ start()", "max by (a) (foo @ 1000 offset 30s)", "sum(foo) @ end()"}
+		wins := []Window{faultWindow, {Start: 1_200_000, End: 1_200_000}, {Start: 960_000, End: 1_500_000, Step: 60_000}, {Start: 1_050_000, End: 1_050_000}, {Start: 930_000, End: 1_230_000, Step: 15_000}}
+		text := pick(r, atPool)
+		for i := range jobs {
+			jobs[i].q = text
+			if r.Intn(3) == 0 {
+				jobs[i].q = pick(r, atPool)
+			}
+			jobs[i].w = pick(r, wins)
+		}
+	}
 	res := CaseResult{Query: fmt.Sprintf("%d concurrent queries, first: %s", k, jobs[0].q), Window: faultWindow, NonTriv: true}
 	// "run alone": on an engine of its own, so that the shared engine's first queries are the concurrent ones
 	solo := make([]Canon, k)
 	soloEng, _ := newEngines(dist, data, NewStore(data))
 	for i, j := range jobs {
+		if id%6 == 2 {
+			// literally alone: an engine that has seen no other query
+			soloEng, _ = newEngines(dist, data, NewStore(data))
+		}
 		solo[i], _ = runQuery(soloEng, NewStore(data), EngineCfg{}, j.q, j.w)
 	}
 	got := make([]Canon, k)
@@ -658,8 +742,13 @@ func oracleHist(seed int64, id int) CaseResult {
 	eng, _ := newEngines(false, data, st)
 	// the set of remote engines may change while the distributed engine lives
 	endpoints := &dynEndpoints{engines: []api.RemoteEngine{engine.NewLocalEngine(engine.Opts{EngineOpts: promOpts(EngineCfg{})}, st)}}
+	// the options a server builds once and creates all its engines from: an optimizer list with spare capacity
+	sharedOpts := engine.Opts{EngineOpts: promOpts(EngineCfg{})}
+	if id%10 == 0 {
+		sharedOpts.LogicalOptimizers = append(make([]logicalplan.Optimizer, 0, 8), logicalplan.DefaultOptimizers...)
+	}
 	if dist {
-		eng = engine.NewDistributedEngine(engine.Opts{EngineOpts: promOpts(EngineCfg{})}, endpoints)
+		eng = engine.NewDistributedEngine(sharedOpts, endpoints)
 	}
 	res := CaseResult{Query: "history", Window: w, NonTriv: true}
 	type kept struct {
@@ -687,6 +776,11 @@ func oracleHist(seed int64, id int) CaseResult {
 				Samples: []Sample{{T: w.Start - 5000, V: float64(100 + step)}, {T: w.Start + 400_000, V: float64(200 + step)}}}})
 			endpoints.add(engine.NewLocalEngine(engine.Opts{EngineOpts: promOpts(EngineCfg{})}, extra))
 			ops = append(ops, "new-remote-engine")
+		case k == 4 && dist: // another distributed engine is created from the same options, over other endpoints
+			other := NewStore([]SeriesData{{Labels: labels.FromStrings("__name__", "foo", "a", "elsewhere", "b", "1", "le", "9", "zone", "0"),
+				Samples: []Sample{{T: w.Start - 5000, V: 1e6}, {T: w.Start + 400_000, V: 2e6}}}})
+			_ = engine.NewDistributedEngine(sharedOpts, api.NewStaticEndpoints([]api.RemoteEngine{engine.NewLocalEngine(engine.Opts{EngineOpts: promOpts(EngineCfg{})}, other)}))
+			ops = append(ops, "another-distributed-engine")
 		case k == 2: // new series
 			st.Series = append(st.Series, SeriesData{Labels: labels.FromStrings("__name__", "foo", "a", fmt.Sprintf("n%d", step), "b", "1"),
 				Samples: []Sample{{T: w.Start + int64(step)*1000, V: float64(step)}}})
@@ -705,7 +799,7 @@ func oracleHist(seed int64, id int) CaseResult {
 			}
 			ops = append(ops, fmt.Sprintf("%s [lookback=%v]", qs, qcfg.QueryLookback))
 			q, err := makeQuery(eng, st, qcfg, qs, win)
-			fq, ferr := makeQuery(newFresh(dist, endpoints.Engines()), st, qcfg, qs, win)
+			fq, ferr := makeQuery(newFresh(dist, endpoints.Engines(), sharedOpts.LogicalOptimizers != nil), st, qcfg, qs, win)
 			if (err != nil) != (ferr != nil) {
 				res.Fail = fmt.Sprintf("step %d %q: creation differs from a fresh engine (%v vs %v)", step, qs, err, ferr)
 				res.Ref = strings.Join(ops, " ; ")
@@ -758,8 +852,11 @@ func oracleHist(seed int64, id int) CaseResult {
 	return res
 }
 
-func newFresh(dist bool, remotes []api.RemoteEngine) queryMaker {
+func newFresh(dist bool, remotes []api.RemoteEngine, defaults bool) queryMaker {
 	opts := engine.Opts{EngineOpts: promOpts(EngineCfg{})}
+	if defaults {
+		opts.LogicalOptimizers = append([]logicalplan.Optimizer(nil), logicalplan.DefaultOptimizers...)
+	}
 	if dist {
 		return engine.NewDistributedEngine(opts, api.NewStaticEndpoints(remotes))
 	}
